@@ -7,6 +7,7 @@ import (
 	"strconv"
 	"strings"
 	"time"
+	"unicode/utf8"
 
 	"github.com/spyzhov/ajson"
 )
@@ -506,6 +507,73 @@ func runQuery(o *Out, p *probeRun, si int, sr *Rng, startH string, isPath bool, 
 	return true
 }
 
+// streamEntryPoints (C19, first sentence): the same path TEXT through the three entry points — Node.JSONPath(p) on the root,
+// ApplyJSONPath(root, ParseJSONPath(p)) and the package-level JSONPath(data, p) on its own parse of the same document — must give
+// corresponding nodes (the same Path()s in the same order; the same node identities for the first two) or fail alike. The texts are
+// generated paths as they are and with blanks, tabs or newlines before or after them (a blank after a dot-name is part of the name).
+func streamEntryPoints(o *Out, r *Rng, tier string) {
+	perDoc := 12
+	if tier == "thorough" {
+		perDoc = 120
+	}
+	docs := append([]string{`{"a":1,"a ":2,"b":{"c ":[10,20]," c":3}," a":4}`}, pathDocs...)
+	for di, doc := range docs {
+		dr := r.Fork(uint64(9000 + di))
+		v, _, err := refDecode([]byte(doc))
+		if err != nil {
+			continue
+		}
+		names := map[string]bool{}
+		collectNames(refFromValue(v, nil), names)
+		g := &QGen{r: dr, Stats: o.meta.Stats}
+		for k := range names {
+			g.names = append(g.names, k)
+		}
+		sort.Strings(g.names)
+		for i := 0; i < perDoc; i++ {
+			text := printSels(g.path(1, "$"))
+			switch dr.Intn(6) {
+			case 0:
+				text = " " + text
+			case 1:
+				text = text + " "
+			case 2:
+				text = "\t" + text
+			case 3:
+				text = text + "\n"
+			}
+			if !utf8.ValidString(text) {
+				continue
+			}
+			o.Check("C19", "entry-points")
+			func() {
+				defer func() {
+					if rec := recover(); rec != nil {
+						o.Fail("C11", "no-panic(query)", "a query panicked", doc+"\n"+text, "", fmt.Sprint(rec))
+					}
+				}()
+				root, perr := ajson.Unmarshal([]byte(doc))
+				if perr != nil {
+					return
+				}
+				a, e1 := root.JSONPath(text)
+				var b []*ajson.Node
+				cmds, e2 := ajson.ParseJSONPath(text)
+				if e2 == nil {
+					b, e2 = ajson.ApplyJSONPath(root, cmds)
+				}
+				c, e3 := ajson.JSONPath([]byte(doc), text)
+				if (e1 == nil) != (e2 == nil) || (e1 == nil && !sameNodes(a, b)) {
+					o.Fail("C19", "entry-points", "Node.JSONPath(p) and ApplyJSONPath(node, ParseJSONPath(p)) differ", doc+"\n"+fmt.Sprintf("%q", text), fmt.Sprint(ajson.Paths(a), e1), fmt.Sprint(ajson.Paths(b), e2))
+				}
+				if (e1 == nil) != (e3 == nil) || (e1 == nil && fmt.Sprint(ajson.Paths(a)) != fmt.Sprint(ajson.Paths(c))) {
+					o.Fail("C19", "entry-points", "the package-level JSONPath(data, p) does not return the nodes corresponding to Node.JSONPath(p) on a parse of the same text", doc+"\n"+fmt.Sprintf("%q", text), fmt.Sprint(ajson.Paths(a), e1), fmt.Sprint(ajson.Paths(c), e3))
+				}
+			}()
+		}
+	}
+}
+
 func streamPath(o *Out, r *Rng, tier string) {
 	ajson.VerifSetRand(func() float64 { return 0.25 }, func(n int) int { return n / 2 })
 	nSess, nQ := 150, 24
@@ -596,6 +664,7 @@ func streamPath(o *Out, r *Rng, tier string) {
 	streamOperandMatrix(o, r.Fork(31337), tier)
 	streamScriptSweep(o, r.Fork(4711), tier)
 	streamSliceThen(o, r.Fork(815), tier)
+	streamEntryPoints(o, r.Fork(1919), tier)
 }
 
 // streamSliceThen: a slice followed by another selector, over elements that are containers themselves (what the slice hands on is
@@ -703,7 +772,7 @@ func streamScriptSweep(o *Out, r *Rng, tier string) {
 }
 
 // matrixDoc: one member of every operand class an operator or function can meet
-const matrixDoc = `{"i":-1,"z":0,"p":2,"f":0.5,"nf":-2.5,"h":64,"big":1e300,"s":"a","ds":"12","es":"","t":true,"fl":false,"n":null,"arr":[1,2],"ea":[],"obj":{"k":1},"eo":{},"r":1e400,"b64":"YWJj","huge":4000000000000000000,"c3":[1e100,1,-1e100],"co":{"a":1e100,"b":1,"c":-1e100},"tiny":[1e-10,2e-10]}`
+const matrixDoc = `{"i":-1,"z":0,"p":2,"f":0.5,"nf":-2.5,"h":64,"big":1e300,"s":"a","ds":"12","es":"","t":true,"fl":false,"n":null,"arr":[1,2],"ea":[],"obj":{"k":1},"eo":{},"r":1e400,"b64":"YWJj","huge":4000000000000000000,"c3":[1e100,1,-1e100],"co":{"a":1e100,"b":1,"c":-1e100},"tiny":[1e-10,2e-10],"esc":"a\nb\u0041\\\"x","uni":"\u00e9\ud83d\ude00","raw":"é😀"}`
 
 // streamOperandMatrix: every binary operator on every pair of operand classes, every function on every operand class — literals
 // and values read from the document (negative, zero, fractional, huge, out-of-range, strings, booleans, null, containers, absent)
@@ -725,7 +794,7 @@ func streamOperandMatrix(o *Out, r *Rng, tier string) {
 		lit("num", "-1"), lit("num", "0"), lit("num", "2"), lit("num", "0.5"), lit("num", "-2.5"), lit("num", "64"), lit("num", "1e300"),
 		lit("str", "a"), lit("str", ""), lit("str", "12"), lit("const", "true"), lit("const", "false"), lit("const", "null"),
 		lit("path", "i"), lit("path", "z"), lit("path", "f"), lit("path", "s"), lit("path", "t"), lit("path", "n"), lit("path", "arr"),
-		lit("path", "ea"), lit("path", "obj"), lit("path", "missing"), lit("path", "r"), lit("path", "big"), lit("path", "b64"), lit("path", "huge"), lit("num", "4000000000000000000"), lit("num", "18446744073709551615"),
+		lit("path", "ea"), lit("path", "obj"), lit("path", "missing"), lit("path", "r"), lit("path", "big"), lit("path", "b64"), lit("path", "huge"), lit("path", "esc"), lit("path", "uni"), lit("path", "raw"), lit("num", "4000000000000000000"), lit("num", "18446744073709551615"),
 		{Kind: "path", Path: []Sel{{Kind: "current"}}}, {Kind: "path", Path: []Sel{{Kind: "root"}, {Kind: "descent"}, {Kind: "name", Name: "k"}}},
 		{Kind: "path", Path: []Sel{{Kind: "current"}, {Kind: "name", Name: "arr"}, {Kind: "wild"}}},
 	}
